@@ -822,7 +822,7 @@ func pathBoundary(path string, n int) bool {
 func mutatedArg(f *ssa.Function) int {
 	pkg, name := FnPkgPath(f), f.Name()
 	switch {
-	case pkg == "encoding/binary" && strings.HasPrefix(name, "PutUint"):
+	case pkg == "encoding/binary" && (strings.HasPrefix(name, "PutUint") || strings.HasPrefix(name, "AppendUint")):
 		return 1
 	case pkg == "sort" && (name == "Slice" || name == "SliceStable" || name == "Sort" || name == "Stable" || name == "Strings" || name == "Ints"):
 		return 0
